@@ -218,7 +218,7 @@ def sub_notes(ctx, shard, n):
 
 
 def _cfg():
-    return SG.Cfg(octaves=[2, 3, 4, 5, 6], max_bars=3, max_groups=5, instruments=["none"], max_chord=4, max_pitch=200, twin_p=4)
+    return SG.Cfg(octaves=[2, 3, 4, 5, 6], max_bars=3, max_groups=5, instruments=["none", "generic", "midi"], max_chord=4, max_pitch=200, twin_p=4)
 
 
 def _steps_st():
